@@ -12,11 +12,40 @@ import (
 type ringLogger struct {
 	mu    sync.Mutex
 	lines []string
+	// starved counts starvation markers; caseT / caseBase remember the count when the current case began
+	starved  int
+	caseT    interface{}
+	caseBase int
 }
+
+// CaseStart marks the beginning of a generated case (t identifies the case; repeated calls with the same t
+// are ignored, so every helper that builds a world may call it).
+func CaseStart(t interface{}) {
+	theLog.mu.Lock()
+	defer theLog.mu.Unlock()
+	if theLog.caseT != t {
+		theLog.caseT, theLog.caseBase = t, theLog.starved
+	}
+}
+
+// Starved reports whether, since the current case began, a wall-clock budget of the code under test ran
+// out before its first attempt (the machine was too busy for the shortened budgets).
+func Starved() bool {
+	theLog.mu.Lock()
+	defer theLog.mu.Unlock()
+	return theLog.starved > theLog.caseBase
+}
+
+// starvationMarker is what the claim-payment loop logs when its (harness-shortened) retry budget ran out
+// before a single attempt was made or refused: its goroutine was not scheduled for the whole budget.
+const starvationMarker = "could not pay invoice: timeout, last err: <nil>"
 
 func (r *ringLogger) add(s string) {
 	r.mu.Lock()
 	defer r.mu.Unlock()
+	if strings.Contains(s, starvationMarker) {
+		r.starved++
+	}
 	r.lines = append(r.lines, s)
 	if len(r.lines) > 400 {
 		r.lines = r.lines[len(r.lines)-300:]
